@@ -587,6 +587,26 @@ class Run:
 
 # ----------------------------------------------------------------------------- entry point
 
+def failed_from_log(res):
+    """theorem / lemma names whose proof stopped checking (coqc warnings carry a File line too)"""
+    import re
+    out = []
+    for m in re.finditer(r'File "\./([^"]+)", line (\d+), characters [\d-]+:\s*\nError', res["log"]):
+        f, ln = m.group(1), int(m.group(2))
+        name = None
+        try:
+            lines = open(os.path.join(pv.COQ, f)).read().splitlines()
+            for i in range(min(ln, len(lines)) - 1, -1, -1):
+                mm = pv.THM_RE.match(lines[i])
+                if mm:
+                    name = mm.group(2)
+                    break
+        except OSError:
+            pass
+        out.append("%s:%d%s" % (f, ln, " (%s)" % name if name else ""))
+    return out or res["failed"]
+
+
 def regenerate():
     import importlib
     import gen_scalar
@@ -617,6 +637,7 @@ def run_part(ctx, which):
                 "checker_cmd": "cd /verif/coq && make -k Props/Properties_%s.vo (forced recompile against the regenerated Gen/ScalarGen.v)" % pid,
                 "proof_seconds": round(t1 - t0, 1)})
     if not res["ok"]:
+        res["failed"] = failed_from_log(res)
         cov["failed"] = res["failed"]
     # 3. implementation run (validation of the translator every time; search when a proof broke)
     dense = (not res["ok"]) or (not ctx.quick())
